@@ -171,6 +171,8 @@ def analyse(f, frontend, verb):
             if len(o) == 1 and isinstance(o[0], ast.AugAssign) and is_self_attr(o[0].target, LAST) \
                     and isinstance(o[0].op, ast.Add) and isinstance(o[0].value, ast.Constant) and o[0].value.value == 1:
                 bump = True
+            elif len(o) == 1 and isinstance(o[0], ast.Pass):
+                bump = False
             else:
                 abort(f'{what}: unrecognised for-else')
         ts = f'(TsLoop {int(tries)} {str(bump).lower()})'
@@ -283,11 +285,40 @@ def analyse(f, frontend, verb):
                 break
         if not returns_const((holder or [])[:1], True):
             abort(f'{what}: neither decodes the reply nor returns True')
+    return {'sem': sem, 'ts': ts, 'recorded': recorded, 'checks': checks, 'cmp': cmpop, 'code': code,
+            'catch_decode': catch_decode, 'catch_express': catch_express, 'validates': validates,
+            'body_optional': body_optional()}
+
+
+def coq_proto(d):
     b = lambda x: 'true' if x else 'false'
     return ('{| p_sem := %s; p_ts := %s; p_recorded := %s; p_checks := %s; p_cmp := %s; p_code := %d; '
             'p_catch_decode := %s; p_catch_express := %s; p_validates := %s; p_body_optional := %s |}'
-            % (b(sem), ts, b(recorded), b(checks), cmpop, code, b(catch_decode), b(catch_express), b(validates),
-               b(body_optional())))
+            % (b(d['sem']), d['ts'], b(d['recorded']), b(d['checks']), d['cmp'], d['code'], b(d['catch_decode']),
+               b(d['catch_express']), b(d['validates']), b(d['body_optional'])))
+
+
+def sexp_proto(d):
+    """the record in the s-expression form of Extract/ExC17.v (as_proto)."""
+    ts = d['ts']
+    if ts == 'TsNone':
+        t = [0]
+    elif ts == 'TsMax':
+        t = [2]
+    else:
+        import re
+        m = re.match(r'\(TsLoop (\d+) (true|false)\)', ts)
+        t = [1, int(m.group(1)), m.group(2) == 'true']
+    cmpn = ['CNe', 'CEq', 'CLt', 'CLe', 'CGt', 'CGe'].index(d['cmp'])
+    return [d['sem'], t, d['recorded'], d['checks'], cmpn, d['code'], d['catch_decode'], d['catch_express'],
+            d['validates'], d['body_optional']]
+
+
+def analyse_all():
+    return {'v2_register': analyse(nfd_registerer.NfdRegister.register, 2, 'register'),
+            'v2_unregister': analyse(nfd_registerer.NfdRegister.unregister, 2, 'unregister'),
+            'v1_register': analyse(appv1.NDNApp.register, 1, 'register'),
+            'v1_unregister': analyse(appv1.NDNApp.unregister, 1, 'unregister')}
 
 
 def check_command_signer():
@@ -352,12 +383,11 @@ def response_type():
 def main():
     out = ['(* GENERATED by tools/gen_regproto.py from nfd_registerer.py, app.py, nfd_mgmt.py -- do not edit *)',
            'From NDN Require Import Base.Prelude Model.Registerer.', 'Local Open Scope N_scope.', '']
-    out.append('Definition v2_register : proto := %s.' % analyse(nfd_registerer.NfdRegister.register, 2, 'register'))
-    out.append('Definition v2_unregister : proto := %s.' % analyse(nfd_registerer.NfdRegister.unregister, 2, 'unregister'))
-    out.append('Definition v1_register : proto := %s.' % analyse(appv1.NDNApp.register, 1, 'register'))
-    out.append('Definition v1_unregister : proto := %s.' % analyse(appv1.NDNApp.unregister, 1, 'unregister'))
+    for k, d in analyse_all().items():
+        out.append('Definition %s : proto := %s.' % (k, coq_proto(d)))
     out.append('Definition response_type : N := %d.' % response_type())
     sys.stdout.write('\n'.join(out) + '\n')
 
 
-main()
+if __name__ == '__main__':
+    main()
